@@ -73,6 +73,13 @@ def stream_shape_problem(h, n, stream):
     return f'{len(stream)} batches, the documented number for N={n}, {h} is {want}'
   if any(len(b) != bs for b in stream):
     return f'batch sizes {[len(b) for b in stream]}, every batch holds batch_size={bs} rows'
+  # sampling without replacement (ShuffleBatch.tla, WindowsArePermutations): every complete window of N draws is a permutation
+  # of the client's examples, the draws of the last, incomplete window are distinct
+  flat = [i for b in stream for i in b]
+  for w0 in range(0, len(flat), n):
+    win = flat[w0:w0 + n]
+    if len(set(win)) != len(win) or any(not 1 <= i <= n for i in win):
+      return f'draws {w0 + 1}..{w0 + len(win)} of the stream are {win}: not a draw without replacement from the {n} examples'
   return None
 
 
